@@ -389,8 +389,11 @@ def run_devmem(chk: Check, quick: bool, rng: random.Random, so: str):
         if v is None:
             raise MachineryFailure(f"no verdict for record {i}")
         if v["fail"]:
-            chk.violation({"part": "devmem", "engine_family": "native" if rec["engine"].startswith("native") else rec["engine"].split("-")[0],
-                           "clauses": ",".join(sorted(v["fail"])), "w": rec["w"]},
+            key = {"part": "devmem", "engine_family": "native" if rec["engine"].startswith("native") else rec["engine"].split("-")[0],
+                   "clauses": ",".join(sorted(v["fail"])), "w": rec["w"]}
+            if rec["w"] == 64 and v["spec"].get("topop"):
+                key = {"engine_family": key["engine_family"], "w": 64, "input_class": "w64-op-on-last-word-of-address-space"}
+            chk.violation(key,
                           f"engine {rec['engine']} (w={rec['w']}, storage={rec['storage']}): device-memory observation rejected by Trace_FJMachineDev: {v['fail']}; spec says {v['spec']}",
                           {"record": rec, "verdict": v})
     good = [r for i, r in enumerate(records) if not verdicts[i]["fail"] and r["obs"]["vals"]][:10]
